@@ -39,7 +39,7 @@ End InlInd.
 (* ---- C10.1: the cleanup touches exactly the wholly-bold ATX headings ---- *)
 Definition wholly_bold (l : leaf) : option leaf :=
   match l with
-  | LHeading sx lv [INode KStrong cs] => Some (LHeading sx lv cs)
+  | LHeading sx lv [INode KStrong _ as e] => Some (LHeading sx lv (unwrap_strong e))
   | LHeading sx lv [INode KEmph [INode KStrong cs]] => Some (LHeading sx lv [INode KEmph cs])
   | _ => None
   end.
@@ -233,7 +233,7 @@ Section RenderFacts.
     intros W H. destruct l; cbn [render_leaf] in H.
     - destruct (render_inls refdefs false c []) as [tx cx]. unfold bind in H.
       destruct (wrapper _ _ _); [|discriminate]. injection H as <- _. ends.
-    - destruct (render_inls refdefs true c []) as [tx0 cx]. set (tx := escape_closing_hashes (join_soft_breaks None tx0)) in *.
+    - destruct (render_inls refdefs true c []) as [tx0 cx]. set (tx := escape_closing_hashes _) in *.
       destruct (endswith tx [bsl]); injection H as <- _.
       + ends.
       + ends.
